@@ -22,7 +22,9 @@ import time
 from .core import Rec, Watchdog
 
 _MODEL = None
-_WATCHDOG_S = 30
+_WATCHDOG_S = 20
+_TIMEOUTS = 0          # operations that did not finish, in this (worker) process
+_MAX_TIMEOUTS = 2      # after that many the worker stops executing operations: the run is cut short and says so
 
 
 def _digest(key) -> str:
@@ -38,29 +40,46 @@ def _replay(model, hist):
     return w
 
 
+def judged_step(model, w, op, rec, hist, cfg):
+    """One judged transition under the watchdog (also used by the checks' replay functions, so that a non-terminating
+    operation reproduces as the same violation instead of hanging the replay)."""
+    try:
+        with Watchdog(_WATCHDOG_S):
+            return model.apply(w, op, rec, hist)
+    except Watchdog.Timeout:
+        case = {"history": [list(o) for o in hist] + [list(op)], "cfg": cfg.get("label")}
+        case.update(getattr(model, "case_extras", lambda: {})())
+        rec.violation(f"{cfg.get('pid', '?')}|timeout|{op[0]}", case, f"operation did not finish within {_WATCHDOG_S}s (non-terminating on a world of a handful of nodes)")
+        return "timeout"
+
+
 def _expand(args):
     """Expand a chunk of frontier states: returns (successors, rec-result)."""
+    global _TIMEOUTS
     chunk, cfg, last_level = args
     model = _MODEL
     rec = Rec(cfg)
     succ = []
     for hist, key in chunk:
+        if _TIMEOUTS >= _MAX_TIMEOUTS:
+            rec.count("states_skipped_after_timeouts")
+            continue
         w = _replay(model, hist)
         if _digest(model.canon(w)) != key:
             raise RuntimeError(f"replay divergence: history {hist!r} reached a different canonical state")
         ops = model.ops(w)
         del w
         for op in ops:
+            if _TIMEOUTS >= _MAX_TIMEOUTS:
+                rec.count("transitions_skipped_after_timeouts")
+                continue
             w = _replay(model, hist)
             rec.count("transitions")
             rec.count("traces")
-            try:
-                with Watchdog(_WATCHDOG_S):
-                    st = model.apply(w, op, rec, hist)
-            except Watchdog.Timeout:
-                rec.violation(f"{cfg.get('pid', '?')}|timeout|{op[0]}", {"history": list(hist) + [op], "cfg": cfg.get("label")},
-                              f"operation did not finish within {_WATCHDOG_S}s")
+            st = judged_step(model, w, op, rec, hist, cfg)
+            if st == "timeout":
                 st = "viol"
+                _TIMEOUTS += 1
             rec.outcome(f"{op[0]}:{st}")
             if st == "ok":
                 succ.append((hist + (op,), _digest(model.canon(w))))
@@ -88,8 +107,9 @@ def merge_into(rec: Rec, res: dict) -> None:
 
 def explore(model, depth: int, rec: Rec, cfg: dict, procs: int = 1, max_states: int | None = None, deadline_s: float | None = None):
     """Breadth-first to `depth` operations.  Violating transitions are reported and not expanded."""
-    global _MODEL
+    global _MODEL, _TIMEOUTS
     _MODEL = model
+    _TIMEOUTS = 0
     t0 = time.time()
     w0 = model.fresh()
     k0 = _digest(model.canon(w0))
@@ -120,6 +140,11 @@ def explore(model, depth: int, rec: Rec, cfg: dict, procs: int = 1, max_states: 
             frontier = nxt
             completed = level + 1
             rec.extra.setdefault("states_per_level", []).append(len(seen))
+            if any("|timeout|" in sg for sg in rec.viol):
+                # a non-terminating operation is reported; every further one would cost a full watchdog period
+                rec.cap(f"an operation did not terminate at history length {completed}: exploration stopped there "
+                        f"({rec.c.get('states_skipped_after_timeouts', 0)} states / {rec.c.get('transitions_skipped_after_timeouts', 0)} transitions of that level skipped)")
+                break
             if max_states is not None and len(seen) > max_states and level < depth - 1:
                 rec.cap(f"state cap {max_states} reached; histories of length <= {completed} fully covered")
                 break
